@@ -32,6 +32,13 @@ inductive Step where
 
 abbrev Prog := List Step
 
+def Step.isWrite : Step → Bool
+  | .write _ _ => true
+  | _ => false
+
+/-- number of registers a program defines (every step but `write` defines one) -/
+def ndefs (p : Prog) : Nat := p.countP (fun s => !s.isWrite)
+
 /-- Where a register's storage can be: a buffer allocated by the program, the buffer of
 operand `k` (or a fresh one: `asF`/`reshapeF` decide at run time), or unknown. -/
 inductive Root where
